@@ -263,7 +263,7 @@ fn sub_modules(input: &[u8], st: &mut Stats) -> R {
     check_bytes(&bytes, st, &|| format!("{}mutations: {:?}", m.render(), kinds))?;
     st.sample(|| {
         let mut r = m.render();
-        r.truncate(900);
+        clip(&mut r, 900);
         r
     });
     Ok(())
